@@ -70,6 +70,10 @@ def main():
             else:
                 sh(["git", "-C", REPO, "worktree", "remove", "--force", wt])
                 shutil.rmtree(wt, ignore_errors=True)
+        prev = results.get(sid, {})
+        for k in ("suite", "suite_ok", "demo_unmodified_exit"):
+            if k not in rec and k in prev:
+                rec[k] = prev[k]
         results[sid] = rec
         caught = any(c.get("exit") == 1 for c in rec["checks"].values())
         print(f"{sid:10s} {'CAUGHT' if caught else 'missed'}  demo(mod)={rec.get('demo_modified_exit')} "
